@@ -175,7 +175,7 @@ func (w *world) doUseKillUse(s S, p []string, router, host int, do doFn, resp **
 	if res.Sig != "" {
 		return res, eff, kind, in
 	}
-	killed := (p[3] == "revoke" && res.Outcome == "ok") || (p[3] == "logout" && res.Outcome == "redirect" && res.Rule == "logout-valid-hint")
+	killed := (p[3] == "revoke" && res.Outcome == "ok") || (p[3] == "logout" && res.Outcome == "redirect" && (res.Rule == "logout-valid-hint" || res.Rule == "logout-expired-hint"))
 	rule := "use-" + p[3] + "-use"
 	if !killed {
 		return engine.OK(rule, "not-killed-"+res.Outcome), eff, kind, in
